@@ -15,18 +15,18 @@ Property theorems only; lemmas and auxiliary definitions (`rank`, `TokPath`, `Em
 namespace SFV.C07
 open SFV.Net
 
-/-- **Edges are local to the step.** Every edge recorded when node `n` runs goes from a token on one of its
+/-! `exChain`: **Edges are local to the step.** Every edge recorded when node `n` runs goes from a token on one of its
 input ports to a token on one of its output ports. -/
 theorem node_edges_local (e : Env) (n : Node) (x : TokId × TokId) (h : x ∈ nodeProv e n) :
     x.1.1 ∈ n.ins ∧ x.2.1 ∈ n.outs :=
   nodeProv_local e n x h
 
-/-- every edge of a workflow is recorded by one of its nodes, between that node's input and output ports -/
+/-! `exChain`: every edge of a workflow is recorded by one of its nodes, between that node's input and output ports -/
 theorem prov_edges_local (sp : Spec) (x : TokId × TokId) (h : x ∈ prov sp) :
     ∃ n ∈ sp.nodes, x.1.1 ∈ n.ins ∧ x.2.1 ∈ n.outs :=
   prov_go_local (srcEnv sp) sp.nodes x h
 
-/-- **The depender is a token the step emits**: the edge ends on output port number `j` of the node, at the tag
+/-! `exChain`: **The depender is a token the step emits**: the edge ends on output port number `j` of the node, at the tag
 of a token in component `j` of the node's output. Holds for every step class; for a dot product the node must not
 have more output than input ports (the combinator emits one output per input). -/
 theorem node_edges_target_emitted (e : Env) (n : Node) (hd : n.isDot = true → n.outs.length ≤ n.ins.length)
@@ -34,7 +34,7 @@ theorem node_edges_target_emitted (e : Env) (n : Node) (hd : n.isDot = true → 
     ∃ j : Nat, n.outs[j]? = some x.2.1 ∧ ∃ t ∈ (nodeOut e n)[j]?.getD [], t.tag = x.2.2 :=
   nodeProv_target e n hd x h
 
-/-- **The dependee is a token present on the input port**, with one exception stated explicitly: the edge from
+/-! `exChain`: **The dependee is a token present on the input port**, with one exception stated explicitly: the edge from
 the size port that a gather records for every list it emits. For a forced gather (termination before the size
 token of the key arrived) the engine creates and saves that size token itself, so the edge exists although the
 size port holds no such token. -/
@@ -43,7 +43,7 @@ theorem node_edges_source_present (e : Env) (n : Node) (x : TokId × TokId) (h :
       ∃ inp size out d, n = .gather inp size out d ∧ x = ((size, x.2.2), (out, x.2.2)) :=
   nodeProv_source e n x h
 
-/-- the exception is real: a gather with one element and an empty size port records an edge from the size port -/
+/-! `exChain`: the exception is real: a gather with one element and an empty size port records an edge from the size port -/
 theorem node_edges_source_present_false :
     ¬ ∀ (e : Env) (n : Node) (x : TokId × TokId), x ∈ nodeProv e n → ∃ t ∈ e.get x.1.1, t.tag = x.1.2 := by
   intro h
@@ -51,14 +51,14 @@ theorem node_edges_source_present_false :
     ((1, [0]), (2, [0])) (by decide)
   cases ht
 
-/-- **Completeness.** Every token emitted by a node of any class except the exec pipeline (whose internal ports
+/-! `exChain`: **Completeness.** Every token emitted by a node of any class except the exec pipeline (whose internal ports
 are not part of the model) has at least one incoming edge. For a transformer or conditional without input ports
 nothing is emitted. -/
 theorem prov_complete (e : Env) (n : Node) (hn : n.isExec = false) (j o : Nat) (ho : n.outs[j]? = some o)
     (t : Tok) (ht : t ∈ (nodeOut e n)[j]?.getD []) : ∃ x ∈ nodeProv e n, x.2 = (o, t.tag) :=
   nodeProv_complete e n hn j o ho t ht
 
-/-- **Exactly the consumed inputs (transformer).** The dependees of the token tagged `k` on output port `o` are
+/-! `exChain`: **Exactly the consumed inputs (transformer).** The dependees of the token tagged `k` on output port `o` are
 exactly the tokens tagged `k` on the input ports, and there are any only if such a token is emitted. -/
 theorem tf_dependees_exact (e : Env) (fn : Fn) (ins outs : List Nat) (d : TokId) (o : Nat) (k : Tag) :
     (d, (o, k)) ∈ nodeProv e (.tf fn ins outs) ↔
@@ -66,7 +66,7 @@ theorem tf_dependees_exact (e : Env) (fn : Fn) (ins outs : List Nat) (d : TokId)
         ∃ j : Nat, outs[j]? = some o ∧ ∃ t ∈ (nodeOut e (.tf fn ins outs))[j]?.getD [], t.tag = k :=
   groupProv_dependees
 
-/-- the same for a conditional step -/
+/-! `exChain`: the same for a conditional step -/
 theorem cond_dependees_exact (e : Env) (m r : Nat) (z : Bool) (ins outs : List Nat) (d : TokId) (o : Nat)
     (k : Tag) :
     (d, (o, k)) ∈ nodeProv e (.cond m r z ins outs) ↔
@@ -74,7 +74,7 @@ theorem cond_dependees_exact (e : Env) (m r : Nat) (z : Bool) (ins outs : List N
         ∃ j : Nat, outs[j]? = some o ∧ ∃ t ∈ (nodeOut e (.cond m r z ins outs))[j]?.getD [], t.tag = k :=
   groupProv_dependees
 
-/-- **Exactly the consumed inputs (gather).** The dependees of the list emitted for key `k` are the size token of
+/-! `exChain`: **Exactly the consumed inputs (gather).** The dependees of the list emitted for key `k` are the size token of
 `k` and the elements whose tag has key `k`. -/
 theorem gather_dependees_exact (e : Env) (inp size out d : Nat) (x : TokId) (k : Tag) :
     (x, (out, k)) ∈ nodeProv e (.gather inp size out d) ↔
@@ -82,36 +82,36 @@ theorem gather_dependees_exact (e : Env) (inp size out d : Nat) (x : TokId) (k :
       (x = (size, k) ∨ ∃ t ∈ e.get inp, (d < t.tag.length ∧ gatherKey d t.tag = k) ∧ x = (inp, t.tag)) :=
   gather_dependees
 
-/-- **The edges of a workflow** are the edges its nodes record on the final port contents `den sp`. -/
-theorem prov_edges_exact (sp : Spec) (hwf : wfStruct sp = true) (x : TokId × TokId) :
+/-! `exChain`: **The edges of a workflow** are the edges its nodes record on the final port contents `den sp`. -/
+theorem prov_edges_of_nodes (sp : Spec) (hwf : wfStruct sp = true) (x : TokId × TokId) :
     x ∈ prov sp ↔ ∃ n ∈ sp.nodes, x ∈ nodeProv (den sp) n :=
   prov_mem_iff sp hwf x
 
-/-- every edge of a workflow ends at a token of the final state -/
+/-! `exChain`: every edge of a workflow ends at a token of the final state -/
 theorem prov_target_in_den (sp : Spec) (hwf : wfStruct sp = true)
     (hd : ∀ n ∈ sp.nodes, n.isDot = true → n.outs.length ≤ n.ins.length) (x : TokId × TokId) (hx : x ∈ prov sp) :
     ∃ t ∈ (den sp).get x.2.1, t.tag = x.2.2 :=
   prov_target_den sp hwf hd x hx
 
-/-- every edge of a workflow starts at a token of the final state, or is the size edge of a gather -/
+/-! `exChain`: every edge of a workflow starts at a token of the final state, or is the size edge of a gather -/
 theorem prov_source_in_den (sp : Spec) (hwf : wfStruct sp = true) (x : TokId × TokId) (hx : x ∈ prov sp) :
     (∃ t ∈ (den sp).get x.1.1, t.tag = x.1.2) ∨ ∃ n ∈ sp.nodes, IsGatherSizeEdge n x :=
   prov_source_den sp hwf x hx
 
-/-- **Completeness for a workflow.** Every token of the final state sits on a source or closed port, or on the
+/-! `exChain`: **Completeness for a workflow.** Every token of the final state sits on a source or closed port, or on the
 output of an exec pipeline, or has an incoming provenance edge. -/
 theorem prov_complete_den (sp : Spec) (hwf : wfStruct sp = true) (p : Nat) (t : Tok) (ht : t ∈ (den sp).get p) :
     p ∈ sp.srcPorts ∨ (∃ n ∈ sp.nodes, n.isExec = true ∧ p ∈ n.outs) ∨ ∃ x ∈ prov sp, x.2 = (p, t.tag) :=
   den_token_has_edge sp hwf p t ht
 
-/-- **Edges follow the topological order of the ports**: `rank sp p` is 0 for ports that no node writes and
+/-! `exChain`: **Edges follow the topological order of the ports**: `rank sp p` is 0 for ports that no node writes and
 `i + 1` for the outputs of node number `i`; the dependee of every edge lives on a port of strictly smaller rank
 than the depender. -/
 theorem prov_ports_acyclic (sp : Spec) (hwf : wfStruct sp = true) (x : TokId × TokId) (hx : x ∈ prov sp) :
     rank sp x.1.1 < rank sp x.2.1 :=
   prov_go_rank (structOk_of_wfStruct sp hwf) (srcEnv sp) 0 x hx
 
-/-- what `rank` is: 0 exactly... for ports no node writes, and a positive rank `i + 1` names node number `i`,
+/-! `exChain`: what `rank` is: it is 0 for ports no node writes, and a positive rank `i + 1` names node number `i`,
 which writes the port -/
 theorem rank_spec (sp : Spec) (p : Nat) :
     ((∀ n ∈ sp.nodes, p ∉ n.outs) → rank sp p = 0) ∧
@@ -120,22 +120,18 @@ theorem rank_spec (sp : Spec) (p : Nat) :
   obtain ⟨i, n, h1, h2, h3⟩ := rankGo_pos_idx 0 sp.nodes p h
   exact ⟨i, n, by rw [rank, h1]; omega, h2, h3⟩
 
-/-- ranks increase along every path of provenance edges -/
+/-! `exChain`: ranks increase along every path of provenance edges -/
 theorem prov_path_rank (sp : Spec) (hwf : wfStruct sp = true) (a b : TokId) (p : TokPath (prov sp) a b) :
     rank sp a.1 < rank sp b.1 :=
   tokPath_rank_lt (rank sp) (prov_ports_acyclic sp hwf) p
 
-/-- **The recorded provenance relation is acyclic**: no token depends, transitively, on itself. -/
-theorem prov_acyclic (sp : Spec) (hwf : wfStruct sp = true) (a : TokId) : ¬ TokPath (prov sp) a a :=
+/-! `exChain`: **The recorded provenance relation is acyclic**: no token depends, transitively, on itself. -/
+theorem prov_tokens_acyclic (sp : Spec) (hwf : wfStruct sp = true) (a : TokId) : ¬ TokPath (prov sp) a a :=
   fun p => Nat.lt_irrefl _ (prov_path_rank sp hwf a a p)
 
-/-! ## Examples -/
+/-! ## Examples (the workflows `exChain`, `exForced`, `exDotProv` are defined in `SFV/Lemmas/NetProv.lean`) -/
 
-/-- source list → scatter → transformer → gather -/
-def exChain : Spec :=
-  { nports := 5, sources := [(0, .list [.int 1, .int 2, .int 3])], closed := [],
-    nodes := [.scatter 0 1 2, .tf (.add 10) [1] [3], .gather 3 2 4 1] }
-
+/-- `exChain`: source list → scatter → transformer → gather -/
 example : wfStruct exChain = true := by decide
 
 /-- all edges of the chain: the scatter links every element and the size token to the list, the transformer
@@ -146,28 +142,31 @@ example : prov exChain =
      ((2, [0]), (4, [0])), ((3, [0, 0]), (4, [0])), ((3, [0, 1]), (4, [0])), ((3, [0, 2]), (4, [0]))] := by
   decide
 
+/-- ranks of the ports 0 … 4 of the chain -/
 example : (List.range 5).map (rank exChain) = [0, 1, 1, 2, 3] := by decide
 
-example (a : TokId) : ¬ TokPath (prov exChain) a a := prov_acyclic exChain (by decide) a
+example (a : TokId) : ¬ TokPath (prov exChain) a a := prov_tokens_acyclic exChain (by decide) a
 
-/-- a forced gather: the size port 5 is closed and stays empty, the edge from it is recorded all the same -/
-def exForced : Spec :=
-  { nports := 7, sources := [(0, .list [.int 1, .int 2])], closed := [5],
-    nodes := [.scatter 0 1 2, .gather 1 5 6 1] }
+/-- every token on the gather's output port 4 has an incoming edge -/
+example (t : Tok) (ht : t ∈ (den exChain).get 4) : ∃ x ∈ prov exChain, x.2 = (4, t.tag) := by
+  have hex : ∀ n ∈ exChain.nodes, n.isExec = false := by decide
+  rcases prov_complete_den exChain (by decide) 4 t ht with h | ⟨n, hn, he, _⟩ | h
+  · exact absurd h (by decide)
+  · rw [hex n hn] at he; cases he
+  · exact h
 
+/-- `exForced`, a forced gather: the size port 5 is closed and stays empty, the edge from it is recorded all the
+same -/
 example : wfStruct exForced = true := by decide
 
 example : ((5, [0]), (6, [0])) ∈ prov exForced ∧ (den exForced).get 5 = [] := by decide
 
-/-- dot product of two branches: every combination is linked to one token per input port, on both outputs -/
-def exDot : Spec :=
-  { nports := 7, sources := [(0, .list [.int 1, .int 2])], closed := [],
-    nodes := [.scatter 0 1 2, .tf (.add 10) [1] [3], .tf .sum [1] [4], .dot [3, 4] [5, 6]] }
+/-- `exDotProv`, dot product of two branches: the hypotheses of `prov_target_in_den` hold -/
+example : wfStruct exDotProv = true ∧
+    ∀ n ∈ exDotProv.nodes, n.isDot = true → n.outs.length ≤ n.ins.length := by decide
 
-example : wfStruct exDot = true ∧
-    ∀ n ∈ exDot.nodes, n.isDot = true → n.outs.length ≤ n.ins.length := by decide
-
-example : (prov exDot).filter (fun x => x.2.1 == 5 || x.2.1 == 6) =
+/-- every combination is linked to one token per input port, on both outputs -/
+example : (prov exDotProv).filter (fun x => x.2.1 == 5 || x.2.1 == 6) =
     [((3, [0, 0]), (5, [0, 0])), ((4, [0, 0]), (5, [0, 0])), ((3, [0, 0]), (6, [0, 0])), ((4, [0, 0]), (6, [0, 0])),
      ((3, [0, 1]), (5, [0, 1])), ((4, [0, 1]), (5, [0, 1])), ((3, [0, 1]), (6, [0, 1])), ((4, [0, 1]), (6, [0, 1]))] := by
   decide
